@@ -54,8 +54,12 @@ def seeded() -> str:
             id=m["id"], prop=m["property"], what=m["breaks"].replace("|", "/"), needs=m["needs"].replace("|", "/"),
             by=", ".join(m.get("caught_by", [])) or "—", res=m.get("result", "")))
     caught = sum(1 for m in rows if m.get("caught_by"))
+    later = sum(1 for m in rows if not m.get("caught_by") and summ.get(m["id"], {}).get("after"))
     out.append("")
-    out.append(f"{caught} of {len(rows)} kept seeded changes are reported by the quick check of the property they break.")
+    out.append(f"{caught} of {len(rows)} kept seeded changes are reported by the quick check of the property they break in the recorded "
+               f"evaluation; {later} more were missed at their first evaluation and are reported since the strengthening described in their row "
+               f"(their patches no longer apply to, or are neutralised by, the repaired /repo, so the recorded run could not be repeated); "
+               f"{len(rows) - caught - later} remain unreported.")
     return "\n".join(out)
 
 
